@@ -13,6 +13,8 @@ mod oneshotip;
 mod eofrace;
 #[cfg(not(feature = "force-inprocess"))]
 mod stress;
+#[cfg(not(feature = "force-inprocess"))]
+mod sigrecv;
 mod timed;
 mod chain;
 #[cfg(feature = "async")]
@@ -54,6 +56,8 @@ fn main() {
         "eofrace" => eofrace::run(&args[2..]),
         #[cfg(not(feature = "force-inprocess"))]
         "stress" => stress::run(&args[2..]),
+        #[cfg(not(feature = "force-inprocess"))]
+        "sigrecv" => sigrecv::run(&args[2..]),
         "timed" => timed::run(&args[2..]),
         "chain" => chain::run(&args[2..]),
         #[cfg(not(feature = "force-inprocess"))]
